@@ -1153,4 +1153,223 @@ def toyCharSpec : CharSpec where
   uws c := c.isWhitespace
   alnum c := c.isAlphanum
 
+/-! ## CRLF conversion: how the texts of newlines and comments change -/
+
+theorem crlf_takeWhile_nl (r : List Char) :
+    (crlf r).takeWhile (· ≠ '\n') = r.takeWhile (· ≠ '\n') ∨
+    (crlf r).takeWhile (· ≠ '\n') = r.takeWhile (· ≠ '\n') ++ ['\r'] := by
+  induction r using crlf_induct with
+  | nil => simp
+  | lf t _ => right; simp [crlf_lf]
+  | crlf t _ => left; simp [crlf_crlf]
+  | other c t hc1 hc2 ih =>
+    rw [crlf_other c t hc1 hc2]
+    rcases ih with ih | ih
+    · left; simp [hc1]; simpa using ih
+    · right; simp [hc1]; simpa using ih
+
+theorem crlf_blockScan_take (r : List Char) :
+    (crlf r).take (blockScan (crlf r)) = crlf (r.take (blockScan r)) := by
+  induction r using crlf_induct with
+  | nil => simp [blockScan]
+  | lf t ih =>
+    rw [crlf_lf, blockScan_step '\n' t (by simp), blockScan_step '\r' _ (by simp),
+      blockScan_step '\n' _ (by simp)]
+    simp only [List.take_succ_cons]
+    rw [crlf_lf, ih]
+  | crlf t ih =>
+    rw [crlf_crlf, blockScan_step '\r' _ (by simp), blockScan_step '\n' _ (by simp),
+      blockScan_step '\r' _ (by simp), blockScan_step '\n' _ (by simp)]
+    simp only [List.take_succ_cons]
+    rw [crlf_crlf, ih]
+  | other c t hc1 hc2 ih =>
+    rw [crlf_other c t hc1 hc2]
+    by_cases hm : c = '-' ∧ t.head? = some ']'
+    · obtain ⟨rfl, hh⟩ := hm
+      cases t with
+      | nil => simp at hh
+      | cons d u =>
+        simp only [List.head?_cons, Option.some.injEq] at hh
+        subst hh
+        rw [crlf_other ']' u (by decide) (by simp)]
+        simp only [blockScan_close, List.take_succ_cons, List.take_zero]
+        decide
+    · have hm' : ¬ (c = '-' ∧ (crlf t).head? = some ']') := by
+        intro h
+        exact hm ⟨h.1, ((crlf_head?_eq (s := t) (x := ']') (by decide)).1 h.2).1⟩
+      rw [blockScan_step c t hm, blockScan_step c _ hm']
+      simp only [List.take_succ_cons]
+      have hc2' : ¬ (c = '\r' ∧ (t.take (blockScan t)).head? = some '\n') := by
+        intro hh
+        apply hc2
+        refine ⟨hh.1, ?_⟩
+        have := hh.2
+        cases t with
+        | nil => simp at this
+        | cons d u =>
+          cases hb : blockScan (d :: u) with
+          | zero => rw [hb] at this; simp at this
+          | succ k => rw [hb] at this; simpa using this
+      rw [crlf_other c _ hc1 hc2', ih]
+
+/-- how CRLF conversion changes one token: the kind stays; a newline becomes `"\r\n"` (or stays
+    `"\n"` after a line comment, which then ends with the CR); a line comment stays or gets the CR appended; a block comment is converted inside; every other
+    token keeps its text -/
+def CrlfTok (t' t : Tok) : Prop :=
+  t'.kind = t.kind ∧
+  (t.kind = .newline → t'.text = ['\r', '\n'] ∨ t'.text = ['\n']) ∧
+  (t.kind = .lineComment → t'.text = t.text ∨ t'.text = t.text ++ ['\r']) ∧
+  (t.kind = .blockComment → t'.text = crlf t.text) ∧
+  (crlfVolatile t.kind = false → t'.text = t.text)
+
+theorem lexOne_kind_newline (cs : CharSpec) (c : Char) (rest : List Char) (h : (lexOne cs c rest).1 = .newline) :
+    c = '\n' ∨ (c = '\r' ∧ rest.head? = some '\n') := by
+  have := spellOK_of_lexOne cs c rest
+  rw [h] at this
+  rcases spellOK_newline this with e | e
+  · left; simp only [List.cons.injEq] at e; exact e.1
+  · right
+    simp only [List.cons.injEq] at e
+    refine ⟨e.1, ?_⟩
+    cases rest with
+    | nil => simp at e
+    | cons d u =>
+      cases hn : (lexOne cs c (d :: u)).2 with
+      | zero => rw [hn] at e; simp at e
+      | succ k => rw [hn] at e; simp at e; simp [e.2.1]
+
+theorem lexOne_kind_lineComment (cs : CharSpec) (c : Char) (rest : List Char)
+    (h : (lexOne cs c rest).1 = .lineComment) :
+    c = '-' ∧ rest.head? = some '-' ∧ (lexOne cs c rest).2 = (rest.takeWhile (· ≠ '\n')).length := by
+  have := spellOK_of_lexOne cs c rest
+  rw [h] at this
+  obtain ⟨⟨u, hu⟩, _⟩ := spellOK_lineComment this
+  simp only [List.cons_append, List.nil_append, List.cons.injEq] at hu
+  obtain ⟨rfl, hu⟩ := hu
+  have hh : rest.head? = some '-' := by
+    cases rest with
+    | nil => simp at hu
+    | cons d w =>
+      cases hn : (lexOne cs '-' (d :: w)).2 with
+      | zero => rw [hn] at hu; simp at hu
+      | succ k => rw [hn] at hu; simp at hu; simp; exact hu.1.symm
+  exact ⟨rfl, hh, by simp [lexOne, hh]⟩
+
+theorem lexOne_kind_blockComment (cs : CharSpec) (c : Char) (rest : List Char)
+    (h : (lexOne cs c rest).1 = .blockComment) :
+    c = '[' ∧ ∃ t, rest = '-' :: t ∧ (lexOne cs c rest).2 = blockScan t + 1 := by
+  have := spellOK_of_lexOne cs c rest
+  rw [h] at this
+  obtain ⟨⟨u, hu⟩, _⟩ := spellOK_blockComment this
+  simp only [List.cons_append, List.nil_append, List.cons.injEq] at hu
+  obtain ⟨rfl, hu⟩ := hu
+  cases rest with
+  | nil => simp at hu
+  | cons d w =>
+    cases hn : (lexOne cs '[' (d :: w)).2 with
+    | zero => rw [hn] at hu; simp at hu
+    | succ k =>
+      rw [hn] at hu
+      simp only [List.take_succ_cons, List.cons.injEq] at hu
+      obtain ⟨rfl, _⟩ := hu
+      refine ⟨rfl, w, rfl, ?_⟩
+      rw [← hn]
+      simp [lexOne, Nat.add_comm]
+
+theorem crlfTok_step (cs : CharSpec) (hcs : CrlfSpec cs) (c : Char) (rest : List Char) (off off' : Nat)
+    (h1 : c ≠ '\\') (h2 : c ≠ '\n') (h3 : ¬ (c = '\r' ∧ rest.head? = some '\n')) :
+    CrlfTok ⟨(lexOne cs c (crlf rest)).1, c :: (crlf rest).take (lexOne cs c (crlf rest)).2, off'⟩
+      ⟨(lexOne cs c rest).1, c :: rest.take (lexOne cs c rest).2, off⟩ := by
+  obtain ⟨hk, htxt, _⟩ := lexOne_crlf_step cs hcs c rest h1 h2 h3
+  refine ⟨hk, ?_, ?_, ?_, ?_⟩
+  · intro hn
+    rcases lexOne_kind_newline cs c rest hn with h | h
+    · exact absurd h h2
+    · exact absurd h h3
+  · intro hl
+    simp only at hl
+    obtain ⟨rfl, _, e1⟩ := lexOne_kind_lineComment cs c rest hl
+    obtain ⟨_, _, e2⟩ := lexOne_kind_lineComment cs '-' (crlf rest) (hk.trans hl)
+    simp only [e1, e2, lexlaws_take_takeWhile]
+    rcases crlf_takeWhile_nl rest with e | e
+    · left; rw [e]
+    · right; rw [e]; simp
+  · intro hb
+    simp only at hb
+    obtain ⟨rfl, t, rfl, e1⟩ := lexOne_kind_blockComment cs c rest hb
+    have ec := crlf_other '-' t (by decide) (by simp)
+    obtain ⟨_, t2, et2, e2⟩ := lexOne_kind_blockComment cs '[' (crlf ('-' :: t)) (hk.trans hb)
+    rw [ec] at et2
+    simp only [List.cons.injEq, true_and] at et2
+    subst et2
+    simp only [e1, e2]
+    rw [ec]
+    simp only [List.take_succ_cons]
+    rw [crlf_blockScan_take, crlf_other '[' _ (by decide) (by simp), crlf_other '-' _ (by decide) (by simp)]
+  · intro hv
+    simp only at hv ⊢
+    rw [htxt hv]
+
+/-- two token lists of the same length related token by token by `CrlfTok` -/
+def CrlfToks : List Tok → List Tok → Prop
+  | [], [] => True
+  | a :: as, b :: bs => CrlfTok a b ∧ CrlfToks as bs
+  | _, _ => False
+
+/-- CRLF conversion, token by token: same kinds; newlines become CRLF, a line comment may get the
+    CR appended, block comments are converted inside, every other token keeps its text -/
+theorem lexFrom_crlf_toks (cs : CharSpec) (hcs : CrlfSpec cs) (s : List Char) (hs : CrlfSafe s) (off off' : Nat) :
+    CrlfToks (lexFrom cs off' (crlf s)) (lexFrom cs off s) := by
+  have main : ∀ n (s : List Char), s.length ≤ n → CrlfSafe s → ∀ off off',
+      CrlfToks (lexFrom cs off' (crlf s)) (lexFrom cs off s) := by
+    intro n
+    induction n with
+    | zero =>
+      intro s hl _ off off'
+      cases s with
+      | nil => simp [lexFrom, CrlfToks]
+      | cons _ _ => simp at hl
+    | succ n ih =>
+      intro s hl hs off off'
+      cases s with
+      | nil => simp [lexFrom, CrlfToks]
+      | cons c rest =>
+        simp only [List.length_cons] at hl
+        by_cases h2 : c = '\n'
+        · subst h2
+          rw [crlf_lf, lexFrom_cons, lexFrom_cons]
+          simp only [lexOne_lf, lexOne_crlf, List.drop_succ_cons, List.drop_zero, List.take_succ_cons, List.take_zero]
+          exact ⟨by simp [CrlfTok, crlfVolatile], ih rest (by omega) hs.tail _ _⟩
+        by_cases h3 : c = '\r' ∧ rest.head? = some '\n'
+        · obtain ⟨rfl, h4⟩ := h3
+          obtain ⟨u, rfl⟩ : ∃ u, rest = '\n' :: u := by
+            cases rest with
+            | nil => simp at h4
+            | cons d u => exact ⟨u, by simp at h4; rw [h4]⟩
+          simp only [List.length_cons] at hl
+          rw [crlf_crlf, lexFrom_cons, lexFrom_cons]
+          simp only [lexOne_crlf, List.drop_succ_cons, List.drop_zero, List.take_succ_cons, List.take_zero]
+          exact ⟨by simp [CrlfTok, crlfVolatile], ih u (by omega) hs.tail.tail _ _⟩
+        · have h1 := hs.head_ne
+          rw [crlf_other c rest h2 h3, lexFrom_cons, lexFrom_cons]
+          obtain ⟨_, _, hrest⟩ := lexOne_crlf_step cs hcs c rest h1 h2 h3
+          have hle := lexOne_le cs c rest
+          refine ⟨crlfTok_step cs hcs c rest _ _ h1 h2 h3, ?_⟩
+          rcases hrest with e | ⟨t, e1, e2⟩
+          · rw [e]
+            exact ih _ (by rw [List.length_drop]; omega) (hs.tail.drop _) _ _
+          · rw [e1, e2, lexFrom_cons, lexFrom_cons]
+            simp only [lexOne_lf, List.drop_zero, List.take_zero]
+            have hl2 : t.length ≤ n := by
+              have := congrArg List.length e1
+              rw [List.length_drop] at this
+              simp only [List.length_cons] at this
+              omega
+            have hst : CrlfSafe t := by
+              have := hs.tail.drop (lexOne cs c rest).2
+              rw [e1] at this
+              exact this.tail
+            exact ⟨by simp [CrlfTok, crlfVolatile], ih t hl2 hst _ _⟩
+  exact main s.length s (Nat.le_refl _) hs off off'
+
 end Cook
